@@ -319,7 +319,16 @@ def run_case(item):
         ev = judge(o, case)
         del o.stdout, o.stderr
         if ev and ev[0][0] == "slow":
-            ev = classify_hang(exe, d, case)
+            # confirm before calling it a hang: the same case once more with about twice the CPU budget; a run that then terminates
+            # was slow (loaded machine, cold caches), not non-terminating
+            o2 = proc.run([exe] + case["args"], cwd=d, cpu_s=2 * CPU_S + 1, fsize_mb=64,
+                          stdin_data=stdin if stdin is not None else "quit\n", env=env(), max_out=1 << 16)
+            if o2.timed_out or o2.signal == signal.SIGXCPU:
+                ev = classify_hang(exe, d, case)
+            else:
+                ev2 = judge(o2, case)
+                del o2.stdout, o2.stderr
+                ev = ev2 if ev2 and ev2[0][0] == "viol" else [("withheld", "slow_not_hang", "terminated within about twice the CPU budget")]
         case.pop("_n", None)
         return {"case": case, "ev": ev, "loaded": loaded, "status": status, "started": started}
     finally:
